@@ -222,7 +222,7 @@ func randKVs(r *rand.Rand, depth int) []KV {
 }
 
 var alterKinds = []string{"none", "aud", "iss", "with", "can", "nb-value", "nb-add", "cap-add", "cap-drop", "prf-add", "prf-drop", "prf-reorder", "exp", "exp-none", "nbf", "nnc", "fct-add", "fct-change", "version",
-	"sig-flip", "sig-code", "sig-trunc", "other-key", "other-did", "nb-link-to-slashmap", "nb-bytes-to-slashmap", "fct-link-to-slashmap"}
+	"sig-flip", "sig-code", "sig-trunc", "sig-append", "sig-grow", "other-key", "other-did", "nb-link-to-slashmap", "nb-bytes-to-slashmap", "fct-link-to-slashmap"}
 
 func genC07(cfg Config, emit Emit) error {
 	n := 1200
@@ -520,6 +520,13 @@ func execUcan(a []string) Result {
 	case "sig-trunc":
 		fieldAlter = false
 		m.S = m.S[:len(m.S)-1]
+	case "sig-append": // bytes after the signature, declared size unchanged
+		fieldAlter = false
+		m.S = append(append([]byte{}, m.S...), 0x00, 0x2a)
+	case "sig-grow": // one more signature byte, declared size adjusted
+		fieldAlter = false
+		sv := signature.Decode(m.S)
+		m.S = signature.NewSignature(sv.Code(), append(append([]byte{}, sv.Raw()...), 0x00)).Bytes()
 	case "other-key":
 		fieldAlter = false
 		useVfr = other.Verifier()
